@@ -7,6 +7,13 @@ What is decided by which engine:
                         even on the empty text), either does not match or matches >= 1 characters: no rule matches
                         the empty string.  lex1's extent is one of these rule extents, 1 for a `literals` character, or
                         ERROR, so this already implies progress of the scan.
+    no-exponential-backtracking  N=16, one obligation per unbounded repeat (`*`, `+`, `{m,}` and counted repeats that cannot be
+                        exhausted within N) of every rule: there is no string that the repeat consumes, from loop head back
+                        to loop head, along two different NFA paths (one iteration vs. several, or two ways through the body) -
+                        the classical criterion (EDA) for exponential backtracking of CPython's matcher.  sat => the witness is
+                        pumped (prefix + w*n + failing suffix) and the real `_master_re.match` is timed in a child process:
+                        measured exponential growth is a VIOLATION (the scan does not terminate in practice), otherwise
+                        informational.  Polynomial blow-up (e.g. two adjacent loops over the same class) is not covered.
     progress      N=16  the same statement on the composed step: forall non-empty text, lex1 is ERROR, a `literals`
                         character with extent 1, or a rule match with 1 <= extent <= |text|
   CrossHair (Engine B, the real Python)
@@ -226,6 +233,10 @@ def _step_obligations(sess: rx.Session, N: int, n_step: int) -> List[rx.Obligati
     obs = [rx.ob_rule_extents(sess, f"lexer-step:rule-extent:{nm}", "lexer-step:rule-extents", N, nm)
            for nm in sess.engines[N].names]
     obs.append(rx.ob_progress(sess, "lexer-step:progress", "lexer-step", n_step))
+    # termination in practice: no unbounded repeat of any rule is exponentially ambiguous (catastrophic backtracking)
+    for li, lp in enumerate(sess.engines[n_step].nfa.loops):
+        obs.append(rx.ob_no_eda(sess, f"lexer-step:no-exponential-backtracking:{lp['rule']}#loop{li}", "lexer-step:backtracking",
+                                n_step, li))
     return obs
 
 
